@@ -14,7 +14,8 @@ RULE = ("one run = one history over 1-3 objects of a generated class (declared-r
         "not random for the call is bit-identical after it, success or failure; (constants) pin-probe "
         "verdicts of the treated object equal those of a freshly constructed control object brought "
         "to the same non-random values / rand_mode flags / rangelist contents. Non-trivial = >=1 call "
-        "with >=1 non-random field in the frame and >=1 probe pair; distinct = (program shape, op 3-grams).")
+        "with >=1 non-random field in the frame and >=1 probe pair; distinct = (program shape, op 3-grams)."
+        " Class blocks may read a stand-alone non-random field (value carried in the tree under $g; it must survive every call on the object) and use a bit-select indexed by a non-random field.")
 REAL = ["pyvsc (all of src/vsc)", "PyBoolector"]
 STUB = ["user code (generated)", "stdout (sink)"]
 ASSUMPTIONS = ["frame oracle is evaluator-free; the constants oracle compares the implementation with "
